@@ -426,8 +426,10 @@ func (s *verifSeqSuite) taskStatusChanged(t *state.Task, old, new state.Status) 
 		return
 	}
 	idx, ok := s.chainIdx[t.ID()]
-	if !ok && t.Kind() == "check-rerefresh" {
-		// not part of the chain: waits (by retrying) for the rest of the change, touches nothing we model
+	if !ok && (t.Kind() == "check-rerefresh" || t.Kind() == "auto-connect") {
+		// not part of the chain: check-rerefresh waits (by retrying) for the rest of the change; auto-connect
+		// is injected at run time by doLinkSnap when the change has setup-profiles but no auto-connect
+		// (Enable). Both are no-ops here (interface tasks are fakes) and touch nothing we model.
 		return
 	}
 	if !ok {
@@ -828,13 +830,24 @@ func (s *verifSeqSuite) randomOp(name string) *verifSeqOp {
 		op.Dev = r.Intn(10) == 0
 	case pick < 66:
 		op.Kind = "remove"
-		if r.Intn(3) > 0 {
+		switch r.Intn(4) {
+		case 0:
 			op.Rev = 1 + r.Intn(verifSeqMaxRev)
+		case 1, 2:
+			if len(rec.Seq) > 0 {
+				op.Rev = rec.Seq[r.Intn(len(rec.Seq))]
+			}
 		}
 	case pick < 72:
 		op.Kind = "disable"
+		if !rec.Active && r.Intn(3) > 0 {
+			op.Kind = "enable"
+		}
 	case pick < 78:
 		op.Kind = "enable"
+		if rec.Active && r.Intn(3) > 0 {
+			op.Kind = "disable"
+		}
 	case pick < 86:
 		op.Kind = "setconfig"
 		op.Val = 1 + r.Intn(3)
